@@ -4,3 +4,4 @@
 -/
 import RosuModel.Props.C17ArcEnd
 import RosuModel.Props.C17ArcTol
+import RosuModel.Props.C17Bezier
